@@ -147,8 +147,10 @@ func main() {
 	if len(w.Inlined) > 0 {
 		r.Extra["normalized_calls_inlined"] = w.Inlined
 	}
-	fn(w, r)
-	round6(w, r)
+	if !round6pre(w, r) {
+		fn(w, r)
+		round6(w, r)
+	}
 	r.evDir = *out
 	if *tier == "thorough" {
 		thoroughExtras(w, r, vdir, *repo)
